@@ -138,6 +138,35 @@ pub fn c14_bitset_contains_insert_remove_len() {
     core::mem::forget(set);
 }
 
+// @bound one remove_range(start..=end) on a ONE-page set (major 0, words 6 and 7 symbolic) with start and end anywhere in that page, including empty and single-element ranges: membership of a symbolic probe and the cached length afterwards; unwind 10 (runs out of 10 GB in the quick tier)
+// @tier thorough
+// @timeout 3000
+// @mem 30
+#[cfg_attr(kani, kani::proof)]
+#[cfg_attr(kani, kani::unwind(10))]
+pub fn c14_bitset_remove_range_single_page() {
+    let w: [u64; 2] = kani::any();
+    let s0: [u64; 8] = [0, 0, 0, 0, 0, 0, w[0], w[1]];
+    let p0 = any_page_with(s0);
+    let before_len = p0.len() as u64;
+    let mut set = BitSet { pages: vec![p0], page_map: vec![PageInfo { index: 0, major_value: 0 }], length: before_len };
+    let a: u16 = kani::any();
+    let b: u16 = kani::any();
+    let start = (a & 511) as u32;
+    let end = (b & 511) as u32;
+    set.remove_range(start..=end);
+    let probe: u32 = kani::any();
+    let was = probe < 512 && page_member(&s0, probe);
+    let in_range = start <= probe && probe <= end;
+    assert!(set.contains(probe) == (was && !in_range));
+    assert!(set.len() <= before_len);
+    if was && in_range {
+        assert!(set.len() < before_len);
+    }
+    kani::cover!(start == end && page_member(&s0, start), "single-element range removes a member");
+    core::mem::forget(set);
+}
+
 /// remove_range(start..=end) with `start` in major `smaj` and `end` in major `emaj` (the majors
 /// are concrete so that the page walk is decided at symbolic-execution time; the offsets inside
 /// the pages are symbolic, so empty, single-element and whole-page ranges are all included)
